@@ -125,4 +125,35 @@ inline std::vector<double> gen_knots(Rng& r, int order, int extra /*nknots = 2*o
 }
 
 } // namespace psv
+
+// ---- concurrent phase (shared by the harnesses whose subject is a function of its arguments only) ------------------------
+// The models are pure functions: the result of a call cannot depend on other calls in flight.  `run_concurrently` starts
+// `nthreads` threads together, thread i calling job(i); the caller compares what each job produced with the result of the
+// same call made alone.  It runs in a forked child with an alarm, so that a crash or a hang of the concurrent calls is an
+// outcome (returned) and not the end of the harness: 0 = all jobs returned, >0 = the child's exit code, <0 = -signal.
+#include <atomic>
+#include <thread>
+#include <functional>
+#include <sys/wait.h>
+#include <unistd.h>
+namespace psv {
+inline int run_concurrently(int nthreads, unsigned seconds, const std::function<void(int)>& job, const std::function<int()>& verdict) {
+  fflush(nullptr);
+  pid_t pid = fork();
+  if (pid == 0) {
+    alarm(seconds);
+    std::atomic<int> go(0);
+    std::vector<std::thread> th;
+    for (int i = 0; i < nthreads; i++) th.emplace_back([&, i] { while (!go.load()) {} job(i); });
+    go.store(1);
+    for (auto& t : th) t.join();
+    int v = verdict();
+    fflush(nullptr);
+    _exit(v);
+  }
+  int st = 0; waitpid(pid, &st, 0);
+  if (WIFEXITED(st)) return WEXITSTATUS(st);
+  return -(WIFSIGNALED(st) ? WTERMSIG(st) : 99);
+}
+} // namespace psv
 #endif
